@@ -15,7 +15,7 @@ Proof.
     destruct o.
     + eapply IH; [exact W1|exact H].
     + inversion H; subst. exact W1.
-    + eapply IH; [apply close_client_WF|exact H].
+    + eapply IH; [apply close_early_WF; exact W1|exact H].
 Qed.
 
 Lemma boot_loop_WF : forall hosts st outs log st' log' r,
@@ -26,7 +26,7 @@ Proof.
   - destruct (s_closed st); [inversion H; subst; exact Hwf|].
     destruct outs as [|o outs']; [inversion H; subst; exact Hwf|].
     destruct o; try (inversion H; subst; exact Hwf);
-      try (eapply IH; [exact Hwf|exact H]); (eapply IH; [apply close_client_WF|exact H]).
+      try (eapply IH; [exact Hwf|exact H]); (eapply IH; [apply close_early_WF; exact Hwf|exact H]).
 Qed.
 
 Lemma unaware_WF : forall st u st' log r, WF st -> unaware st u = (st', log, r) -> WF st'.
@@ -195,6 +195,7 @@ Inductive reach : state -> Prop :=
 | R_reset_groups : forall st gs, reach st -> reach (reset_groups st gs)
 | R_drop : forall st n, reach st -> reach (drop_conn st n)
 | R_close : forall st, reach st -> reach (fst (close_client st))
+| R_close_early : forall st, reach st -> reach (close_early st)
 | R_hosts : forall st hs, reach st -> reach (set_boot st hs).
 
 Lemma reach_WF : forall st, reach st -> WF st.
@@ -211,5 +212,6 @@ Proof.
   - apply reset_groups_WF; assumption.
   - apply drop_conn_WF; assumption.
   - apply close_client_WF.
+  - apply close_early_WF. assumption.
   - destruct IHreach as [H1 [H2 [H3 H4]]]. repeat split; assumption.
 Qed.
